@@ -267,7 +267,7 @@ CHECKS = {
     ),
     "C12": dict(
         modules=["AggkitModel.Properties.C12"],
-        scenarios=[dict(name="bridgeapi")],
+        scenarios=[dict(name="bridgeapi"), dict(name="bridgestore")],
         generated=["CertFacts"],
         leanchecker=True,
         level_text="Proved in Lean 4 for EVERY content of the L1 info tree, the verified-batches table and the bridge stores and every deposit count: C12_index_covers_l1 / C12_index_covers_l2 — whenever the L1-info-index lookup (both binary searches, modelled loop for loop over the queries they issue: first/last/first-after-block info, first/last/first-after-block verified batches, first info with a rollup exit root, root by exit root) answers with an index, "
